@@ -128,10 +128,15 @@ class FakeSocket:
     def setblocking(self, _):
         pass
 
+    fail = None     # "nodelay" | "peername": the peer vanished between connect() and the first use of the socket
+
     def setsockopt(self, *a):
-        pass
+        if self.fail == "nodelay" and len(a) >= 2 and a[1] == socket.TCP_NODELAY:
+            raise OSError(22, "Invalid argument")
 
     def getpeername(self):
+        if self.fail == "peername":
+            raise OSError(107, "Transport endpoint is not connected")
         return self.peer
 
     def fileno(self):
@@ -249,6 +254,7 @@ class Net:
         if isinstance(action, BaseException):
             raise action
         sock = FakeSocket()
+        sock.fail = getattr(self, "socket_fault", None)
         self.sockets.append(sock)
         return sock
 
